@@ -624,6 +624,9 @@ func runFrame(fr *frame) {
 		}
 		fr.panicking = true
 		fr.panic = p
+		if debugPanics && (fr.i.top == fr || fr.i.top == nil) {
+			fmt.Fprintf(os.Stderr, "target panic %v in %s\n", p, fr.fn)
+		}
 		if fr.i.mode&EnableTracing != 0 {
 			fmt.Fprintf(os.Stderr, "Panicking: %T %v.\n", fr.panic, fr.panic)
 		}
@@ -731,3 +734,5 @@ func doRecover(caller *frame) value {
 	}
 	return iface{}
 }
+
+var debugPanics = os.Getenv("VSYM_PANICS") != ""
